@@ -28,9 +28,14 @@ Record route := mkRoute {
 (* one row as hash_pandas_object sees it: label, then (column, dtype, rounded cell) in column order *)
 Definition cell_of (r : row) (c : string) : pyval :=
   if String.eqb c "branch" then VBool (r_des r) else match dget c (r_cells r) with Some v => round8 v | None => VNone end.
-Definition dtype_of (rt : route) (c : string) : string := match Lib.Py.assoc c (rt_dtypes rt) with Some d => d | None => "" end.
+(* hash_pandas_object sees a column as unsigned 64-bit integers (all int widths and bool alike), as floats, or as objects / text *)
+Definition dtype_class (d : string) : string :=
+  if mem d ["int8"; "int16"; "int32"; "int64"; "uint8"; "uint16"; "uint32"; "uint64"; "bool"] then "i"
+  else if mem d ["float16"; "float32"; "float64"] then "f" else "o".
+Definition dtype_of (rt : route) (c : string) : string := match Lib.Py.assoc c (rt_dtypes rt) with Some d => dtype_class d | None => "" end.
+Definition norm_cell (v : pyval) : pyval := match v with VBool b => VInt (if b then 1 else 0) | x => x end.
 Definition token (rt : route) (lab : pyval) (r : row) : pyval :=
-  VList (lab :: map (fun c => VList [VStr c; VStr (dtype_of rt c); cell_of r c]) (rt_columns rt)).
+  VList (lab :: map (fun c => VList [VStr c; VStr (dtype_of rt c); norm_cell (cell_of r c)]) (rt_columns rt)).
 Definition tokens (rt : route) (i : iso) : list pyval :=
   match i_body i with BPoint _ _ rows _ _ => map (fun lr => token rt (fst lr) (snd lr)) (combine (rt_index rt) rows) | _ => [] end.
 
@@ -131,7 +136,8 @@ Proof.
   destruct b, b'; try contradiction;
     (apply app_eq_len in E; [|reflexivity]); destruct E as [E ->];
     unfold fixed, labels, unit_params, mat_val in E; cbn [i_units i_body i_mat i_mprops i_ads i_temp map fst combine app] in E;
-    injection E; intros; subst; clear Ti Tj Wi Wj. 2: { Show. } 
+    injection E; intros; subst; clear Ti Tj Wi Wj.
+  all: pose proof (mat_val_inj _ _ _ _ A1 A2 B1 B2 H0) as XY; destruct XY as [XX YY]; subst; repeat split; auto.
 Qed.
 End Sens.
 
@@ -143,10 +149,10 @@ Definition rt_int := mkRoute [VInt 0; VInt 1] [("pressure", "int64"); ("loading"
 Definition rt_idx := mkRoute [VInt 5; VInt 6] [("pressure", "float64"); ("loading", "float64"); ("branch", "int8")] ["pressure"; "loading"; "branch"].
 Definition rt_obj := mkRoute [VInt 0; VInt 1] [("pressure", "float64"); ("loading", "float64"); ("branch", "object")] ["pressure"; "loading"; "branch"].
 Ltac no_perm :=
-  let P := fresh in intros P;
+  let P := fresh in intros P; vm_compute in P;
   match type of P with Permutation (?t :: _) ?m =>
     assert (I : In t m) by (eapply Permutation_in; [exact P|left; reflexivity]);
-    vm_compute in I; repeat (destruct I as [I|I]; [congruence|]); exact I end.
+    cbn [In] in I; repeat (destruct I as [I|I]; [congruence|]); exact I end.
 (* same content, other route => other row tokens (so another identifier unless the row hash collides) *)
 Lemma route_int_vs_float : ~ Permutation (tokens rt_a w_pt) (tokens rt_int w_pt).
 Proof. no_perm. Qed.
